@@ -37,6 +37,7 @@ generator}.go by the correspondence channel `scope` (checks/C03.py); the referen
                                 with the preserved part named in `sim_preserved_partial`.
 -/
 import ZygoVerif.Proofs.ScopeGen
+import ZygoVerif.Proofs.ScopeSim
 import ZygoVerif.Spec.RefEval
 namespace ZygoVerif.C03
 open ZygoVerif.Core ZygoVerif.VM ZygoVerif.Scope
@@ -354,6 +355,57 @@ example : ((exec 1 .removeScope).run inF).2.scopes = inF.scopes ∧
     (scopeOf ((exec 1 .removeScope).run inF).2 2).isFunction = true := by
   have h := (pop_keeps_cells 0 inF).1
   exact ⟨h, by simp only [scopeOf, h]; decide⟩
+
+/-! ## 6. Simulation against the reference environments
+
+`Sim ρ φ s rs env` (`Proofs/ScopeSim.lean`): along stages 1 and 2 of the VM's search list
+(`lexCore`), scope by scope, the reference state `rs` has the corresponding frames on the
+static chain of `env` (first occurrences, `ρ` maps scope ids to frame ids) with the
+corresponding variables (`φ` translates values), and the template's captured scopes add
+nothing. -/
+
+/-- In related states the VM's `LexicalLookupSymbol` and the reference evaluator's walk of
+the static chain find corresponding bindings, and fail together. -/
+theorem lookup_sound {ρ : Nat → Nat} {φ : Val → Val} {s : St} {rs : Ref.St} {env : Nat}
+    (h : Sim ρ φ s rs env) (x : String) :
+    (lexLookup s x).map (fun p => (ρ p.1, φ p.2)) = Ref.lookup rs env x :=
+  ZygoVerif.Scope.lookup_sound h x
+
+/-- `Sim` is satisfiable: `inF` (inside `f`, called from `g`) against the reference state
+with the global frame and `f`'s activation frame — whose parent is the global frame, not the
+frame of the caller `g`. -/
+def refInF : Ref.St :=
+  { frames := [{ vars := [("x", .int 1#64)] }, { vars := [("x", .int 2#64)], parent := some 0 }, { parent := some 0 }] }
+
+example : Sim (fun id => if id = 2 then 2 else if id = 1 then 1 else 0) id inF refInF 2 :=
+  ⟨by decide, by decide, by decide⟩
+
+example : Ref.lookup refInF 2 "x" = some (0, .int 1#64) := by decide
+
+/-- The full preservation statement: every step of the VM that the reference evaluator
+mirrors keeps the two related. -/
+def SimPreservedFull : Prop :=
+  ∀ (ρ : Nat → Nat) (φ : Val → Val) (s : St) (rs : Ref.St) (env : Nat), Sim ρ φ s rs env → WF s →
+    ∀ (fuel : Nat) (i : Instr), ∃ ρ' φ' rs' env', Sim ρ' φ' ((exec fuel i).run s).2 rs' env'
+
+/-- What is proved of it: entering a scope (`AddScopeInstr`: `let`, `letseq`, `newScope`,
+`for`) against the reference evaluator's `newFrame`. **Missing**: leaving a scope
+(`RemoveScopeInstr` — needs `ρ` injective on the chain), `def`/`set` (variables of one scope
+change on both sides), `CreateClosure` (needs the heap-wide invariant "the captured stack +
+parent chain of every closure corresponds to the environment of the reference closure" and a
+value translation `φ` that grows), call / return / self tail call (`AddFuncScope` on the
+callee's captured chain), `apply`/`map`, lazy arguments. Those are held by the 3-way
+correspondence of channel `scope`, not by a theorem. -/
+theorem sim_preserved_partial {ρ : Nat → Nat} {φ : Val → Val} {s : St} {rs : Ref.St} {env : Nat} (n : Nat)
+    (h : Sim ρ φ s rs env) (w : WF s)
+    (hrange : ∀ id ∈ lexCore s, ρ id < rs.frames.length)
+    (hparents : ∀ (i : Nat) (fr : Ref.Frame), rs.frames[i]? = some fr → ∀ p, fr.parent = some p → p < i)
+    (henv : env < rs.frames.length) :
+    Sim (fun id => if id = s.scopes.length then rs.frames.length else ρ id) φ
+      ((exec (n+1) .addScope).run s).2 (Ref.newFrame rs env).2 (Ref.newFrame rs env).1 := by
+  have : ((exec (n+1) .addScope).run s).2 = addScopeSt s := by simp only [VM.exec, run_modify]; rfl
+  rw [this]
+  exact sim_addScope h w hrange hparents henv
 
 /-! ## Fix C03-01: a shadowed self name is an ordinary call -/
 
